@@ -60,7 +60,7 @@ def main():
         rc = C.EXIT_VIOLATION
     if not failed and replay_info and replay_info.get("witness"):
         # verifier accepted but the real code misbehaves on a concrete input: the trusted base is wrong
-        path = C.write_replay(PROP, "native-cross-check", "all Verus obligations were discharged, yet the real code fails:\n  %s\n" % replay_info["witness"])
+        path = C.write_replay(PROP, "native-cross-check", ("the verifier was undecided on this tree" if undecided else "all Verus obligations were discharged") + ", and the real code fails on a concrete input:\n  %s\n" % replay_info["witness"])
         lines.append("VIOLATION property=%s replay=%s obligation=native-cross-check" % (PROP, path))
         violations += 1
         rc = C.EXIT_VIOLATION
